@@ -58,7 +58,13 @@ macro_rules! api_table {
             /// operands enter every build through the same public, checked constructor (words that
             /// do not form a valid pair become NAN in all builds alike)
             fn t(w: (f64, f64)) -> TwoFloat {
-                TwoFloat::try_from(w).unwrap_or(TwoFloat::NAN)
+                match TwoFloat::try_from(w) {
+                    Ok(v) => v,
+                    // the public non-finite constants stand for words the checked constructor refuses
+                    Err(_) if w.0 == f64::INFINITY => TwoFloat::INFINITY,
+                    Err(_) if w.0 == f64::NEG_INFINITY => TwoFloat::NEG_INFINITY,
+                    Err(_) => TwoFloat::NAN,
+                }
             }
             fn o(x: TwoFloat) -> Out {
                 vec![(x.hi(), x.lo())]
